@@ -30,6 +30,69 @@ AbsPre(o, st) ==
 
 
 (***************************************************************************)
+(* Remaining read-only requests, block level: get_page_links, links_iter,  *)
+(* the counting scans, links_metrics, and the integer figures of           *)
+(* lru_trie.metrics / bst_metrics (averages and ratios are floats and are  *)
+(* left out).                                                              *)
+(***************************************************************************)
+PageLinksBlocks(tr, ls, l, inb, internal, outb) ==     \* sequence, in the order the code lists them
+  LET n == LruNode(tr, l) IN
+  IF n = 0 \/ ~tr[n].pg THEN <<>>
+  ELSE LET wo == IF tr[n].o # 0 /\ (outb \/ internal) THEN Weighted(ls, tr[n].o) ELSE <<>>
+           ko == SelectSeq(wo, LAMBDA e : LET tl == Windup(tr, e[1]) IN
+                                          (outb /\ tl # l) \/ (internal /\ tl = l))
+           wi == IF tr[n].i # 0 /\ inb THEN Weighted(ls, tr[n].i) ELSE <<>>
+           ki == SelectSeq(wi, LAMBDA e : Windup(tr, e[1]) # l)
+       IN [j \in 1..Len(ko) |-> <<l, Windup(tr, ko[j][1]), ko[j][2]>>]
+          \o [j \in 1..Len(ki) |-> <<Windup(tr, ki[j][1]), l, ki[j][2]>>]
+
+RECURSIVE LinksIterFrom(_, _, _, _, _)
+LinksIterFrom(tr, ls, pg, j, out) ==      \* links_iter: pages in dfs order, deduped targets of each
+  IF j > Len(pg) THEN <<>>
+  ELSE LET b == pg[j][1]
+           head == IF out THEN tr[b].o ELSE tr[b].i
+           d == IF head = 0 THEN <<>> ELSE Deduped(ls, head)
+       IN [x \in 1..Len(d) |-> <<pg[j][2], Windup(tr, d[x])>>] \o LinksIterFrom(tr, ls, pg, j + 1, out)
+LinksIterBlocks(tr, ls, out) ==
+  LinksIterFrom(tr, ls, SelectSeq(DfsRoot(tr), LAMBDA e : tr[e[1]].pg), 1, out)
+
+CountPagesScan(tr)   == Cardinality({ b \in 1..Len(tr) : tr[b].pg })
+CountCrawledScan(tr) == Cardinality({ b \in 1..Len(tr) : tr[b].pg /\ tr[b].cr })
+CountLinksBlocks(ls) == Len(ls) \div 2        \* (blocks - 1) / 2; integral when no request is in progress
+
+(* links_metrics: first block (in file order) with the strictly largest number of distinct targets *)
+LinksMetricsBlocks(tr, ls) ==
+  LET Cnt(b, out) == LET h == IF out THEN tr[b].o ELSE tr[b].i IN IF h = 0 THEN 0 ELSE Len(Deduped(ls, h))
+      MaxOf(out) == LET S == { Cnt(b, out) : b \in 1..Len(tr) } IN IF S = {} THEN 0 ELSE CHOOSE x \in S : \A y \in S : y <= x
+      ArgOf(out) == LET m == MaxOf(out) IN
+                    IF m = 0 THEN <<>> ELSE Windup(tr, CHOOSE b \in 1..Len(tr) : Cnt(b, out) = m /\ \A c \in 1..(b - 1) : Cnt(c, out) < m)
+  IN [maxin |-> MaxOf(FALSE), inlru |-> ArgOf(FALSE), maxout |-> MaxOf(TRUE), outlru |-> ArgOf(TRUE)]
+
+(* lru_trie.metrics, integer figures *)
+RECURSIVE TailRun(_, _)
+TailRun(tr, b) == IF b <= Len(tr) /\ tr[b].t THEN 1 + TailRun(tr, b + 1) ELSE 0
+TrieMetricsBlocks(tr) ==
+  [nodes |-> Len(tr), pages |-> CountPagesScan(tr), crawled |-> CountCrawledScan(tr),
+   tails |-> Cardinality({ b \in 1..Len(tr) : tr[b].t }),
+   frag  |-> Cardinality({ b \in 1..Len(tr) : tr[b].mo }),
+   stems |-> Cardinality({ b \in 1..Len(tr) : ~tr[b].t }),
+   maxtail |-> LET S == { TailRun(tr, b + 1) : b \in { h \in 1..Len(tr) : ~tr[h].t } } IN
+               IF S = {} THEN 0 ELSE CHOOSE x \in S : \A y \in S : y <= x]
+
+(* bst_metrics, integer figures.  As in the code, a block counts as the root of a search tree *)
+(* when it has no parent pointer (every top-level node, and every tail block) or is the child *)
+(* its parent points to.                                                                       *)
+RECURSIVE BstSize(_, _)
+BstSize(tr, b) == IF b = 0 THEN 0 ELSE 1 + BstSize(tr, tr[b].l) + BstSize(tr, tr[b].r)
+RECURSIVE BstHeight(_, _)
+BstHeight(tr, b) == IF b = 0 THEN 0 ELSE 1 + Max(BstHeight(tr, tr[b].l), BstHeight(tr, tr[b].r))
+BstMetricsBlocks(tr) ==
+  LET roots == { b \in 1..Len(tr) : tr[b].pa = 0 \/ tr[tr[b].pa].ch = b }
+      SetMaxQ(S) == IF S = {} THEN 0 ELSE CHOOSE x \in S : \A y \in S : y <= x
+  IN [nb |-> Cardinality(roots), maxh |-> SetMaxQ({ BstHeight(tr, b) : b \in roots }),
+      maxs |-> SetMaxQ({ BstSize(tr, b) : b \in roots })]
+
+(***************************************************************************)
 (* C02: the three access paths                                             *)
 (***************************************************************************)
 LookupClauses(post, q) ==
@@ -65,7 +128,10 @@ LinkClauses(post, o, q) ==
                           /\ r.d = OutDeg(r.l) + InDeg(r.l) + SelfDeg(r.l)
                           /\ r.ow = OutW(r.l) /\ r.iw = InW(r.l)
                           /\ r.dw = OutW(r.l) + InW(r.l) + SelfW(r.l)>>,
-    <<"C03.degree.all", { q.deg[j].l : j \in 1..Len(q.deg) } = PSet(o)>>
+    <<"C03.degree.all", { q.deg[j].l : j \in 1..Len(q.deg) } = PSet(o)>>,
+    <<"bind.links_iter", q.liexc = "" =>
+         /\ [j \in 1..Len(q.lo) |-> <<q.lo[j].s, q.lo[j].t>>] = LinksIterBlocks(post.trie, post.ls, TRUE)
+         /\ [j \in 1..Len(q.li) |-> <<q.li[j].p, q.li[j].o>>] = LinksIterBlocks(post.trie, post.ls, FALSE)>>
   >>)
 
 (***************************************************************************)
@@ -117,7 +183,15 @@ MetricsClauses(post, o, q) ==
                         /\ m.pages = Cardinality(PSet(o)) /\ m.crawled = Cardinality(CSet(o))
                         /\ m.tails = tails
                         /\ m.links = SumW(OutT(o))>>,
-       <<"bind.metrics", m.nodes = Len(post.trie) /\ m.stems = Len(post.trie) - tails /\ m.frag = frag>>
+       <<"bind.metrics", m.nodes = Len(post.trie) /\ m.stems = Len(post.trie) - tails /\ m.frag = frag>>,
+       <<"bind.metrics.trie", Has(m, "maxtail") => m.maxtail = TrieMetricsBlocks(post.trie).maxtail>>,
+       <<"bind.metrics.bst",  Has(m, "bst") =>
+                                 LET x == BstMetricsBlocks(post.trie) IN
+                                 m.bst.nb = x.nb /\ m.bst.maxh = x.maxh /\ m.bst.maxs = x.maxs>>,
+       <<"bind.metrics.links", Has(m, "lm") =>
+                                 LET x == LinksMetricsBlocks(post.trie, post.ls) IN
+                                 /\ m.lm.maxin = x.maxin /\ m.lm.maxout = x.maxout
+                                 /\ m.lm.inlru = x.inlru /\ m.lm.outlru = x.outlru>>
      >>)
 
 (***************************************************************************)
